@@ -267,7 +267,16 @@ impl Prop for C19 {
                         o.extend(pkt::opt::nop());
                         o.extend(pkt::opt::nop());
                     }
-                    o.extend(pkt::opt::ts(val, if k_opts == 0 { 0 } else { 1 }));
+                    // the echoed timestamp is the peer's business: zero, small, arbitrary, or by coincidence this
+                    // endpoint's own value (both ends reading one clock, as on a loopback or same-host connection)
+                    let ecr = match r.below(8) {
+                        0 => val,
+                        1 => val.wrapping_sub(1),
+                        2 => r.u32(),
+                        3 => 0,
+                        _ => if k_opts == 0 { 0 } else { 1 },
+                    };
+                    o.extend(pkt::opt::ts(val, ecr));
                     o
                 } else if k_opts < 2 {
                     pkt::opt::mss(1460)
